@@ -5,6 +5,7 @@ import WhVerif.Lemmas.C07Term
 import WhVerif.Lemmas.C07Max
 import WhVerif.Lemmas.C07Fam
 import WhVerif.Lemmas.C07Pop
+import WhVerif.Lemmas.C07CompleteReplay
 /-!
 # C07 — read selection never exceeds the coverage cap and leaves no admissible read out
 
@@ -228,5 +229,39 @@ example : readselection true witness5 2 true [] = .ok [2, 4, 0, 1] := by decide 
 example : readselection false witness5 2 true [3, 1, 4] = .ok [0, 2, 1] := by decide
 example : (familySelect true [witness5, witness2] 4 []).map List.length = [4, 2] := by decide
 example : ∀ r ∈ witness5.map (fun r => { r with pref := false }), r.pref = false := by decide
+
+/-! ### completeness of the enumeration: the membership test of the correspondence check is exact -/
+
+/-- **allOutcomes_complete**: for EVERY list of tie choices the (sorted) outcome of the verified function is among
+the enumerated outcomes.  No fuel hypothesis is needed: the breadth-first enumeration runs to the same depths
+(queue length / number of undecided reads) that `terminates` proves sufficient for the deterministic loops, and
+merging states that agree up to the order of their sets, of the coverage history and of the queue loses nothing
+(every step of the model is invariant under such reorderings; the component finder's merges commute). -/
+theorem allOutcomes_complete (fixed : Bool) (reads : List Read) (k : Nat) (br : Bool) (cs : List Nat) :
+    (readselection fixed reads k br cs).canon ∈ allOutcomes fixed reads k br := by
+  obtain ⟨e, he, hE⟩ := exploreStates_complete fixed reads k br cs
+  have hmem : e.trace.reverse ∈ explore fixed reads k br := by
+    rw [explore_eq]; exact List.mem_map.mpr ⟨e, he, rfl⟩
+  have hsel : (phases fixed reads k br e.trace.reverse).2.selected.Perm (phases fixed reads k br cs).2.selected := by
+    rw [exploreStates_replay fixed reads k br e he]; exact hE.selected
+  unfold allOutcomes
+  apply mem_dedupOutcomes
+  exact List.mem_map.mpr ⟨_, hmem, readselection_canon_eq fixed reads k br _ _ hsel⟩
+
+/-- the enumerated set is EXACTLY the set of (sorted) outcomes of the verified function over all tie choices -/
+theorem allOutcomes_exact (fixed : Bool) (reads : List Read) (k : Nat) (br : Bool) (o : Outcome) :
+    o ∈ allOutcomes fixed reads k br ↔ ∃ cs, o = (readselection fixed reads k br cs).canon :=
+  ⟨allOutcomes_sound fixed reads k br o, fun ⟨cs, h⟩ => h ▸ allOutcomes_complete fixed reads k br cs⟩
+
+/-- non-vacuity with a real tie: two identical reads, cap 1 — either may be popped first, two outcomes, each reached
+by a choice list (below also four identical reads, cap 2: all C(4,2) = 6 selections are enumerated) -/
+def tie2 : List Read := [⟨[10, 20], [1, 1], false⟩, ⟨[10, 20], [1, 1], false⟩]
+
+example : allOutcomes true tie2 1 true = [.ok [0], .ok [1]] ∧
+    (readselection true tie2 1 true [0]).canon = .ok [0] ∧ (readselection true tie2 1 true [1]).canon = .ok [1] ∧
+    (readselection true tie2 1 true [7, 3]).canon ∈ allOutcomes true tie2 1 true := by
+  decide
+
+example : (allOutcomes false (tie2 ++ tie2) 2 false).length = 6 := by decide
 
 end WhVerif.Props.C07
